@@ -1679,13 +1679,58 @@ def compat_test_rule(repo: Repo, R: Report) -> None:
         g = CFG(ic)
         blocked_edges = {(n.id, lab) for n in g.nodes if n.kind in ("if", "while") and n.part is not None for lab in edges_guaranteeing(n.part, gate)}
         seen = g.reach([g.entry], blocked_edges=blocked_edges)
+        # the two type parameters keep their entry value: a verdict computed from them earlier still speaks about them at the return
+        stable = not any(isinstance(x, ast.Name) and isinstance(x.ctx, (ast.Store, ast.Del)) and x.id in (p_out, p_in) for x in ast.walk(ic)) and not any(isinstance(x, (ast.Global, ast.Nonlocal)) for x in ast.walk(ic))
+
+        params = {a.arg for a in ic.args.posonlyargs + ic.args.args + ic.args.kwonlyargs} | {a.arg for a in (ic.args.vararg, ic.args.kwarg) if a is not None}
+
+        def local_value(d, name: str) -> Optional[ast.AST]:
+            a = d.ast
+            if d.kind != "stmt":
+                return None
+            if isinstance(a, ast.Assign) and len(a.targets) == 1 and isinstance(a.targets[0], ast.Name) and a.targets[0].id == name:
+                return a.value
+            if isinstance(a, ast.AnnAssign) and isinstance(a.target, ast.Name) and a.target.id == name and a.value is not None:
+                return a.value
+            return None
+
+        def truth_implies_gate(v: Optional[ast.AST], at: int, depth: int = 0) -> bool:
+            """Whenever *v*, evaluated at CFG node *at*, is truthy, output == input or issubclass(output, input) held:
+            decided on the expression itself, else on the definitions of the local(s) it reads that reach *at* (a verdict
+            computed inside `try:` and returned on the `else:` path / after the statement, a verdict set under a guard)."""
+            if v is None or (isinstance(v, ast.Constant) and not v.value):
+                return True
+            if "T" in edges_guaranteeing(v, gate):
+                return True
+            if not stable or depth > 6:
+                return False
+            if isinstance(v, ast.Name):
+                defs = reaching_defs(g, v.id, at)
+                if not defs or v.id in params:
+                    return False  # a parameter's entry value can reach the use besides the definitions
+                for d in defs:
+                    if d.id not in seen:
+                        continue  # bound only where the gate's condition was already established
+                    dv = local_value(d, v.id)
+                    if dv is None or not truth_implies_gate(dv, d.id, depth + 1):
+                        return False
+                return True
+            if isinstance(v, ast.UnaryOp) and isinstance(v.op, ast.Not):
+                return False
+            if isinstance(v, ast.BoolOp):
+                subs = [truth_implies_gate(x, at, depth + 1) for x in v.values]
+                return all(subs) if isinstance(v.op, ast.Or) else any(subs)
+            if isinstance(v, ast.IfExp):
+                return truth_implies_gate(v.body, at, depth + 1) and truth_implies_gate(v.orelse, at, depth + 1)
+            if isinstance(v, ast.Call) and isinstance(v.func, ast.Name) and v.func.id == "bool" and len(v.args) == 1 and not v.keywords:
+                return truth_implies_gate(v.args[0], at, depth + 1)
+            return False
+
         bad = []
         for nid in seen:
             n = g.nodes[nid]
             if n.kind == "stmt" and isinstance(n.ast, ast.Return):
-                v = n.ast.value
-                falsy = v is None or (isinstance(v, ast.Constant) and not v.value)
-                if not falsy and "T" not in edges_guaranteeing(v, gate):
+                if not truth_implies_gate(n.ast.value, n.id):
                     bad.append(n)
         bad.sort(key=lambda n: n.line)
         for n in bad:
@@ -3582,11 +3627,14 @@ class _BlockChain:
                 def atom(t: ast.AST) -> Optional[bool]:
                     if isinstance(t, ast.Name) and t.id == name:
                         return False  # truthy: not None
-                    if isinstance(t, ast.Compare) and len(t.ops) == 1 and isinstance(t.left, ast.Name) and t.left.id == name and isinstance(t.comparators[0], ast.Constant) and t.comparators[0].value is None:
-                        if isinstance(t.ops[0], (ast.Is, ast.Eq)):
-                            return True
-                        if isinstance(t.ops[0], (ast.IsNot, ast.NotEq)):
-                            return False
+                    if isinstance(t, ast.Compare) and len(t.ops) == 1:
+                        # `x is None` / `None is x` (and ==, is not, !=): identity and equality with None are symmetric
+                        sides = [t.left, t.comparators[0]]
+                        if sum(1 for s_ in sides if isinstance(s_, ast.Name) and s_.id == name) == 1 and sum(1 for s_ in sides if isinstance(s_, ast.Constant) and s_.value is None) == 1:
+                            if isinstance(t.ops[0], (ast.Is, ast.Eq)):
+                                return True
+                            if isinstance(t.ops[0], (ast.IsNot, ast.NotEq)):
+                                return False
                     return None
                 for d, _v in vals[1:]:
                     prior = [self._plain_value(o, name) for o in reaching_defs(self.g, name, d.id)]
